@@ -22,7 +22,7 @@ COLS = ["name", "size", "path", "ext", "modified", "is_dir", "mode", "uid", "*",
 FUNCS = ["lower", "upper", "length", "substr", "replace", "concat", "format_size", "format_time", "power", "sqrt", "log", "abs",
          "hex", "year", "rand", "random", "count", "sum", "avg", "min", "max", "stddev", "var_samp", "contains", "has_xattr", "xattr",
          "has_cap", "curdate", "current_uid", "coalesce", "concat_ws", "to_base64", "from_base64", "least", "greatest", "japanese"]
-PATHS = ["t", "t/a.txt", "t/sub", "./t", "t/", "nowhere", ".", "t/sp ace", "'t/sp ace'", "t,t", "t/sub,", "t/*"]
+PATHS = ["t", "t/a.txt", "t/sub", "./t", "t/", "nowhere", ".", "t/sp ace", "'t/sp ace'", "t,t", "t/sub,", "t/*", "'t/[s'", "t/s?b", "t/[st]*"]
 ROOTOPTS = ["depth", "maxdepth", "mindepth", "sym", "symlinks", "arc", "archives", "git", "hg", "dock", "nogit", "bfs", "dfs", "regexp"]
 FORMATS = ["list", "json", "csv", "html", "tabs", "lines", "xml", "LIST"]
 PUNCT = [",", ",,", ";", ".", ":", "@", "#", "$", "&", "|", "\\", "^"]
@@ -60,7 +60,9 @@ DIRECTED = [
     ("bad-boolean", "name from t where is_dir = maybe", 2), ("bad-boolean", "name from t where is_file != 2", 2),
     ("bad-boolean", "name from t where user_read = 'si'", 2),
     ("bad-function-argument", "rand(x) from t", 2), ("bad-function-argument", "rand(1, y) from t", 2),
-    ("bad-function-argument", "format_size(size, '%.2 q') from t", 2),
+    ("bad-function-argument", "format_size(size, '%.2 q') from t", 2), ("bad-function-argument", "format_size(size, '%.99999999999k') from t", 2),
+    ("bad-root", "name from 't/[s' regexp", 2), ("bad-root", "name from t/(x regexp", 2), ("out-of-range-argument", "substr(name, -100) from t", 0),
+    ("out-of-range-argument", "substr('abc', -4, 2) from t", 0), ("out-of-range-argument", "substr(name, 100, 5) from t", 0),
     ("cli", "-c", None), ("cli", "--config", None), ("cli", "-c nowhere.toml", None), ("cli", "--nocolor", None),
     ("cli", "-v", None), ("cli", "--help", None), ("cli", "-i", None),
 ]
@@ -269,8 +271,9 @@ def run_job(job):
                     cls = "mutation"
                 else:
                     f = rng.choice(FUNCS)
-                    a = rng.choice(["", "name", "'x'", "-5", "2.5", "99999999999999999999", "size", "''", "*", "name, name, name"])
-                    b = rng.choice(["", ", x", ", -1", ", 1.5", ", 'y', 'z'", ", 99999999999999999999", ", name"])
+                    a = rng.choice(["", "name", "'x'", "'abc'", "-5", "2.5", "99999999999999999999", "size", "''", "*", "name, name, name", "modified", "ext"])
+                    b = rng.choice(["", ", x", ", -1", ", 1.5", ", 'y', 'z'", ", 99999999999999999999", ", name", ", -100", ", 100", ", 0", ", -4, 2",
+                                    ", 2, 1000000", ", -2147483648", ", 2147483647", ", 1, 0", ", '%.99999999999k'", ", '%.999'", ", '%.-1'", ", -0", ", 1e3"])
                     toks = ["%s(%s%s)" % (f, a, b if a else ""), "from", "t"]
                     if rng.random() < 0.3:
                         toks = ["name", "from", "t", "where", "%s(%s%s)" % (f, a, b if a else ""), rng.choice(["=", ">", "like"]), rng.choice(["1", "x", "true"])]
